@@ -87,6 +87,9 @@ func (r *replayer) promoCase(c Case) {
 			}
 		}
 	}
+	if c.Promo != nil && r.opts["-fullwidth"] == "1" {
+		r.promoBig(c, *c.Promo)
+	}
 	if c.N >= 3 {
 		r.sum.Nontrivial++
 	}
